@@ -2,6 +2,7 @@ SPECIFICATION Spec
 CONSTANTS
   Kind = "grid2d"
   Scope = 1
+  Mode = "rw"
   Deviations = {"CountKeepsCache"}
 VIEW vw
 INVARIANT CacheCoherent
